@@ -651,6 +651,8 @@ func (l *IPFSLog) Join(otherLog iface.IPFSLog, size int) (iface.IPFSLog, error) 
 
 		l.Entries = entries
 		l.heads = heads
+
+		verifYield("Join:truncated")
 	}
 
 	// Find the latest clock from the heads
